@@ -34,14 +34,15 @@ pub fn grapheme_firsts(s: &str) -> Vec<char> {
         .collect()
 }
 
-/// A multi code point cluster that contains a character of the pattern syntax (whitespace, backslash, a marker): the
-/// crate keeps one character per cluster, so whether the syntax character "is there" depends on whether clusters are
-/// formed before or after unescaping - the property is silent about that, such inputs are not judged.
+/// A multi code point cluster that contains a backslash: the crate keeps one character per cluster, so whether the
+/// backslash "is there" (and escapes the following space) depends on whether clusters are formed before or after
+/// unescaping - the property is silent about that, such inputs are not judged.
 pub fn syntax_inside_cluster(s: &str) -> bool {
     use unicode_segmentation::UnicodeSegmentation;
-    s.graphemes(true).any(|g| {
-        g != "\r\n" && g.chars().count() > 1 && g.chars().any(|c| c.is_whitespace() || matches!(c, '\\' | '!' | '^' | '\'' | '$'))
-    })
+    // only a backslash inside a cluster makes the two orders differ: markers are read from the text before clusters are
+    // formed, unescaped whitespace splits at the character level, and an escaped space followed by an extending character
+    // is the first character of its cluster either way
+    s.graphemes(true).any(|g| g != "\r\n" && g.chars().count() > 1 && g.chars().any(|c| c == '\\'))
 }
 
 pub fn ref_split(pattern: &str) -> Vec<String> {
